@@ -583,6 +583,10 @@ func vRunAbaco(c *vCase) {
 		vRunAbacoRingDevice(c) // the shared-memory device instead of scripted producers
 		return
 	}
+	if c.Idx%16 == 3 && !vAbForceUnwrap && !vAbForceInvert {
+		vRunAbacoUDPDevice(c) // the UDP device over a loopback socket
+		return
+	}
 	s := vGenAbScript(c)
 	c.Describe("%s", s.String())
 	s.stats(c)
@@ -921,11 +925,11 @@ func init() {
 		},
 		Run: vRunAbaco,
 		Meta: vMeta{Level: "exploration",
-			Rule: "case = script (1-4 channel groups on 1-3 producers, 1-8 channels each, 1-32 frames per packet, int16/int32 payloads, per-group sequence-number bases, per-group loss pattern none/isolated/bursts/long run/first packets/dense, per-tick per-group batching incl. empty ticks and lagging groups), executed 3 (quick) or 6 (thorough) times because the reader iterates a Go map; the real Start..CoreLoop pipeline runs against scripted PacketProducers and every block handed to ProcessSegments is compared with the per-channel reference stream (delivered samples, frames-per-packet filler per lost packet), equal lengths, contiguous frame numbers and the dropped-frame total; non-trivial = every executed script; additions: external-trigger packets mixed into the stream (1 case in 4), a slow consumer (1 in 3), and a quiescence phase at the end (no more packets; after six empty ticks nothing complete may be held back); one case in 16 uses the shared-memory device instead (AbacoRing over a real ring the harness publishes into in pieces that ignore packet boundaries, before and after start and a second discard): every read must return exactly the whole packets published and not yet read, in order and bit-exact; one case in 3 of the non-unwrapping ones inverts 1-2 channels, with or without rescaling",
+			Rule: "case = script (1-4 channel groups on 1-3 producers, 1-8 channels each, 1-32 frames per packet, int16/int32 payloads, per-group sequence-number bases, per-group loss pattern none/isolated/bursts/long run/first packets/dense, per-tick per-group batching incl. empty ticks and lagging groups), executed 3 (quick) or 6 (thorough) times because the reader iterates a Go map; the real Start..CoreLoop pipeline runs against scripted PacketProducers and every block handed to ProcessSegments is compared with the per-channel reference stream (delivered samples, frames-per-packet filler per lost packet), equal lengths, contiguous frame numbers and the dropped-frame total; non-trivial = every executed script; additions: external-trigger packets mixed into the stream (1 case in 4), a slow consumer (1 in 3), and a quiescence phase at the end (no more packets; after six empty ticks nothing complete may be held back); one case in 16 uses the shared-memory device instead (AbacoRing over a real ring the harness publishes into in pieces that ignore packet boundaries, before and after start and a second discard): every read must return exactly the whole packets published and not yet read, in order and bit-exact; one case in 16 uses the UDP device over a loopback socket (whole packets of several lengths, packets cut short, noise, empty datagrams): what it hands on must be a subsequence of the whole packets sent, each bit-exact, and a batch handed on earlier must not change; one case in 3 of the non-unwrapping ones inverts 1-2 channels, with or without rescaling",
 			Assumptions: []string{"all groups use the same frames per packet (the code panics otherwise and says so)", "every group has at least two time-stamped packets while sampling (the sample rate and the relation between the groups' sequence numbers are derived from them; the code panics if groups disagree on the rate); 1 case in 5 stamps only every other packet of the run and leaves a group's last sampled packet unstamped; streams without any timestamp only with a single group", "the run continues the sequence numbers seen while sampling",
 				"filler values are not constrained, only their count", "dropped frames are counted per group (two groups losing one packet each = 2 x frames per packet)"},
 			Guards: map[string]map[string]int{
-				"quick":    {"runs": 200, "samples_checked": 100000, "loss_after_leftover": 50, "multi_group_blocks": 2000, "loss_at_tick_edge": 50, "filler_frames_emitted": 2000, "ticks_bailed_out": 200, "ring_device_histories": 4, "ring_device_discards_with_a_packet_in_flight": 10, "runs_with_inverted_channels_without_unwrapping": 20},
+				"quick":    {"runs": 200, "samples_checked": 100000, "loss_after_leftover": 50, "multi_group_blocks": 2000, "loss_at_tick_edge": 50, "filler_frames_emitted": 2000, "ticks_bailed_out": 200, "ring_device_histories": 4, "udp_device_histories": 4, "udp_datagrams_cut_short": 20, "ring_device_discards_with_a_packet_in_flight": 10, "runs_with_inverted_channels_without_unwrapping": 20},
 				"thorough": {"runs": 5000, "loss_after_leftover": 1000},
 			}},
 	})
